@@ -37,6 +37,28 @@ def lit(x):
     return gens_dec(x) if x >= 0 else "-" + gens_dec(-x)
 
 
+def prefixed_items(rng, tier):
+    """a prefix on either scale: the prefixed reading is the reading times the power of ten, before any offset"""
+    items = []
+    scales = "KCF"
+    pref = [("", 0), ("k", 3), ("m", -3), ("M", 6), ("c", -2), ("G", 9)]
+    short = {"K": "K", "C": "°C", "F": "°F"}
+    for a, b in itertools.product(scales, repeat=2):
+        for (la, pa), (lb, pb) in itertools.product(pref, repeat=2):
+            if (pa == 0 and pb == 0) or (tier == "quick" and rng.random() < 0.6):
+                continue
+            x = rng.choice([Fraction(1), Fraction(300), Fraction(-2), Fraction(5, 2), Fraction(27315, 100), Fraction(0)])
+            want = from_k(b, to_k(a, x * Fraction(10) ** pa)) / Fraction(10) ** pb
+
+            def o(reply, want=want):
+                v = pipeline.single_value(reply)
+                if v is None or Fraction(v[0], v[1]) != want:
+                    return {"why": "with prefixes the defining formula gives %s" % want, "expected": str(want)}
+                return None
+            items.append(("%s %s%s to %s%s" % (lit(x), la, short[a], lb, short[b]), o))
+    return items
+
+
 def run(rng, tier, model_ok):
     V = unitlib.vocab()
     items = []
@@ -61,6 +83,9 @@ def run(rng, tier, model_ok):
                 return None
             items.append(("%s %s to %s" % (lit(x), na, nb), o))
             stats["pairs"] += 1
+    for it in prefixed_items(rng, tier):
+        items.append(it)
+        stats["prefixed"] = stats.get("prefixed", 0) + 1
     # chains up to length four, and back
     for _ in range(60 if tier == "quick" else 1500):
         x = rng.choice(mags)
